@@ -9,7 +9,8 @@
    arguments (`plz test L -- a`) and a build config (`-c dbg`).
    NOT typed here but read off the source by gotrans (Gen/C11RuntimeHash.v): what the loop of RuntimeHash
    writes per runtime file (loop_writes), what the test part of ruleHash's runtime section writes
-   (rule_test_writes), the order of the guards and effects of cacheOutputFiles (store_steps), the lookup
+   (rule_test_writes), the leading guards of needToRun (need_to_run_guards), the order of the guards and
+   effects of cacheOutputFiles (store_steps), the lookup
    order of getCommand (get_command_order) and the default / fallback build config.  No proofs here. *)
 From PlzV Require Import Base.Harness Gen.C11RuntimeHash.
 
@@ -286,16 +287,25 @@ Definition builds_after (cache_on : bool) (st : tstate) (t : tdef) : list (list 
 Definition settled (cache_on : bool) (st : tstate) (t : tdef) : bool :=
   negb (fetched cache_on st t) && option_eqb str_eqb (st_bin st) (Some (t_bin t)).
 
-(* One `plz test` of the target.  [cache_on]: a directory cache is configured.  [a]: the test arguments.
-   needToRun does not look at the test arguments, and the runtime key does not contain them. *)
+(* the leading `if <guard> { return true }` statements of needToRun (Gen.need_to_run_guards): --rerun is not
+   part of the model; a run that is given test arguments always runs (the runtime key does not contain the
+   arguments, so a stored result says nothing about them) *)
+Definition guard_fires (a : list str) (g : run_guard) : bool :=
+  match g with
+  | NGForceRerun => false
+  | NGArgs => has_args a
+  end.
+
+(* One `plz test` of the target.  [cache_on]: a directory cache is configured.  [a]: the test arguments. *)
 Definition test_step (cache_on : bool) (st : tstate) (t : tdef) (a : list str) : tstate * report :=
   let k := runtime_key t in
   (* needToRun (:144) *)
   let need_to_run :=
-    match settled cache_on st t, st_local st with
-    | true, Some l => negb (key_eqb l k)                   (* verifyHash on the local results file only *)
-    | _, _ => negb (cache_on && mem_key k (st_cache st))   (* retrieveFromCache *)
-    end in
+    existsb (guard_fires a) need_to_run_guards
+    || match settled cache_on st t, st_local st with
+       | true, Some l => negb (key_eqb l k)                   (* verifyHash on the local results file only *)
+       | _, _ => negb (cache_on && mem_key k (st_cache st))   (* retrieveFromCache *)
+       end in
   let bk := Some (t_build t) in
   let bs := builds_after cache_on st t in
   if negb need_to_run then
@@ -364,8 +374,7 @@ Definition same_inputs_b (a b : tdef) : bool :=
 Inductive defect :=
 | RuntimeFileNamesNotHashed     (* equal key, but a runtime file lies at another destination *)
 | DirEntryNamesNotHashed        (* equal key, same destinations, but a directory's entries differ (C09) *)
-| OtherKeyCollision             (* equal key although command or contents differ (unframed rule stream, ...) *)
-| ArgsNotInKey.                 (* equal key, one run without and one with test arguments that change the outcome *)
+| OtherKeyCollision.            (* equal key although command or contents differ (unframed rule stream, ...) *)
 
 Definition pair_defect (a b : tdef) : option defect :=
   if key_eqb (runtime_key a) (runtime_key b) && negb (same_inputs_b a b) then
@@ -384,19 +393,9 @@ Fixpoint first_some {A B} (f : A -> option B) (l : list A) : option B :=
   | x :: r => match f x with Some d => Some d | None => first_some f r end
   end.
 
-(* x is an argument-less step that passes (its result is stored), y has the same key and test arguments
-   under which it fails: needToRun hands x's result to y *)
-Definition step_pair_defect (x y : step) : option defect :=
-  match pair_defect (s_def x) (s_def y) with
-  | Some d => Some d
-  | None => if key_eqb (runtime_key (s_def x)) (runtime_key (s_def y)) && negb (has_args (s_args x))
-               && outcome (s_def x) && negb (step_outcome y)
-            then Some ArgsNotInKey else None
-  end.
-
-(* the first pair of steps of the history on which the key is blind to a change of the inputs or arguments *)
+(* the first pair of tree states of the history on which the key is blind to a change of the inputs *)
 Definition defect_class (h : list step) : option defect :=
-  first_some (fun x => first_some (fun y => step_pair_defect x y) h) h.
+  first_some (fun x => first_some (fun y => pair_defect (s_def x) (s_def y)) h) h.
 
 (* ---- correspondence cases ---- *)
 
